@@ -111,7 +111,7 @@ if __name__ == "__main__":
         c02(); sys.exit(0)
     if which == "C01":
         imports = ("Scalar Rops Sums Deriv Dual DualProofs Drag DragDeriv Stress StressDeriv StressProofs Transfer TransferDeriv Loads LoadsDeriv "
-                   "Functionals FunctionalsDeriv Aero AeroDeriv PG PGDeriv Beam BeamTables BeamDeriv Geom GeomDeriv Misc MiscDeriv")
+                   "Functionals FunctionalsDeriv Aero AeroDeriv PG PGDeriv Beam BeamTables BeamDeriv Geom GeomDeriv Misc MiscDeriv MultiSec MultiSecDeriv")
         items = [
             ("C01_dual_number_tangent_is_the_partial_derivative", "DR_partial", "the meaning of every statement below: the tangent part of the dual-number evaluation is the coordinate partial derivative"),
             ("C01_seeded_coordinate", "DR_upd1", None),
@@ -201,6 +201,8 @@ if __name__ == "__main__":
             ("C01_RadiusComp", "radius_comp_DR", None),
             ("C01_MonotonicConstraint", "monotonic_DR", None),
             ("C01_Energy", "energy_DR", None),
+            ("C01_GeomMultiUnification", "unify_DR", "multi-section wings: any number of sections, with and without the leading-edge shift"),
+            ("C01_GeomMultiJoin", "join_sep_DR", None),
         ]
         hdr = "C01 - analytic component derivatives equal the true derivatives.  Property theorems only (statements printed by Coq from the libraries Real/*Deriv.v).  DR g t0 p  :=  g t0 = fst p /\\ is_derive g t0 (snd p);  every theorem says: along ANY differentiable curve of the inputs, the dual-number evaluation of the component model gives the value and the derivative - hence every partial derivative (C01_dual_number_tangent_is_the_partial_derivative) and, by composition, every chain of components"
         old = [f for f in os.listdir(os.path.join(COQ, "Props")) if f.startswith("C01")]
